@@ -72,14 +72,30 @@ func (w *ConfWatcher) run() {
 	var lastCalled time.Time
 	previousWatchedPath, _ := filepath.EvalSymlinks(w.absolutePath)
 
+	// when a change happens too close to the previous notification,
+	// the notification is postponed, not dropped, otherwise
+	// the final content of the file might never be loaded.
+	var postponeTimer *time.Timer
+	var postponeTimerC <-chan time.Time
+
+	notify := func() bool {
+		// wait some additional time to allow the writer to complete its job
+		time.Sleep(additionalWait)
+
+		lastCalled = time.Now()
+
+		select {
+		case w.signal <- struct{}{}:
+			return true
+		case <-w.terminate:
+			return false
+		}
+	}
+
 outer:
 	for {
 		select {
 		case event := <-w.inner.Events:
-			if time.Since(lastCalled) < minInterval {
-				continue
-			}
-
 			currentWatchedPath, _ := filepath.EvalSymlinks(w.absolutePath)
 			eventPath, _ := filepath.Abs(event.Name)
 			eventPath, _ = filepath.EvalSymlinks(eventPath)
@@ -91,17 +107,27 @@ outer:
 				(eventPath == currentWatchedPath &&
 					((event.Op&fsnotify.Write) == fsnotify.Write ||
 						(event.Op&fsnotify.Create) == fsnotify.Create)) {
-				// wait some additional time to allow the writer to complete its job
-				time.Sleep(additionalWait)
 				previousWatchedPath = currentWatchedPath
 
-				lastCalled = time.Now()
+				if remaining := minInterval - time.Since(lastCalled); remaining > 0 {
+					if postponeTimer == nil {
+						postponeTimer = time.NewTimer(remaining)
+						postponeTimerC = postponeTimer.C
+					}
+					continue
+				}
 
-				select {
-				case w.signal <- struct{}{}:
-				case <-w.terminate:
+				if !notify() {
 					break outer
 				}
+			}
+
+		case <-postponeTimerC:
+			postponeTimer = nil
+			postponeTimerC = nil
+
+			if !notify() {
+				break outer
 			}
 
 		case <-w.inner.Errors:
@@ -110,6 +136,10 @@ outer:
 		case <-w.terminate:
 			break outer
 		}
+	}
+
+	if postponeTimer != nil {
+		postponeTimer.Stop()
 	}
 
 	close(w.signal)
